@@ -27,6 +27,12 @@ Definition rout_eqb (a b : rout) : bool :=
   | RChan x, RChan y => N.eqb x y
   | _, _ => false
   end.
+Definition mout_eqb (a b : mout) : bool :=
+  match a, b with
+  | MOk, MOk => true
+  | MList x, MList y => list_eqb N.eqb x y
+  | _, _ => false
+  end.
 Definition iout_eqb (a b : iout) : bool :=
   match a, b with
   | IAdded, IAdded | IErr, IErr => true
@@ -42,7 +48,8 @@ Inductive xcase :=
 | HKms (h : list (hrec kop kout)) (w : list nat)
 | HSess (h : list (hrec sop sout)) (w : list nat)
 | HReg (h : list (hrec rop rout)) (w : list nat)
-| HInbox (h : list (hrec iop iout)) (w : list nat).
+| HInbox (h : list (hrec iop iout)) (w : list nat)
+| HMsg (h : list (hrec mop mout)) (w : list nat).
 
 Definition check_xcase (x : xcase) : bool :=
   match x with
@@ -51,6 +58,7 @@ Definition check_xcase (x : xcase) : bool :=
   | HSess h w => valid_linearization sess_step sout_eqb [] h w
   | HReg h w => valid_linearization reg_step rout_eqb 0 h w
   | HInbox h w => valid_linearization inbox_step iout_eqb [] h w
+  | HMsg h w => valid_linearization msg_step mout_eqb [] h w
   end.
 
 Fixpoint mismatches_from (i : nat) (cs : list xcase) : list nat :=
